@@ -291,9 +291,9 @@ class SeqAlg:
         dz = self._dict_zip_count(node, env)
         if dz is not None:
             return dz
-        if isinstance(node, ast.Call) and isinstance(node.func, ast.Name) and (node.func.id in ("range", "enumerate", "zip", "reversed") or self._itertools_name(node.func.id) == "compress"
+        if isinstance(node, ast.Call) and isinstance(node.func, ast.Name) and (node.func.id in ("range", "enumerate", "zip", "reversed") or self._itertools_name(node.func.id) in ("compress", "product")
                                                                                 or (node.func.id in ("list", "tuple") and len(node.args) == 1 and isinstance(node.args[0], ast.Call)
-                                                                                    and isinstance(node.args[0].func, ast.Name) and self._itertools_name(node.args[0].func.id) == "compress")) or \
+                                                                                    and isinstance(node.args[0].func, ast.Name) and self._itertools_name(node.args[0].func.id) in ("compress", "product"))) or \
                 (isinstance(node, ast.Call) and isinstance(node.func, ast.Attribute) and node.func.attr in ("values", "items", "keys") and self._is_seq_expr(node.func.value, env)):
             c = self.as_comp(node, env)
             ref = self.new_obj("list", node)
@@ -537,6 +537,26 @@ class SeqAlg:
                 if atom[0] == "pc" and self.canon(atom[1], atom[2]) == want:
                     m = {g0[0]: g1[0] for g0, g1 in zip(o.comp.gens, atom[1])}
                     return subst(o.comp.elt, m)
+        # a product of two independent spaces addressed by  pos(a) * size(B) + pos(b)
+        if o.kind == "list":
+            fs, free = self._factors(o.comp.gens, o.comp.conds)
+            if len(fs) == 2 and not free:
+                (ga, ca), (gb, cb) = fs
+                wa, wb = self.canon(ga, ca), self.canon(gb, cb)
+                nb = self.poly(self.cnt(gb, cb))
+
+                def positions(g, c, w):
+                    if len(g) == 1 and not c and g[0][3] == 1:
+                        return []  # (an unfiltered range: no position symbol of its own - not needed by the shapes met so far)
+                    return [(atom, name) for atom, name in list(self.names.items()) if atom[0] == "pc" and self.canon(atom[1], atom[2]) == w]
+
+                if nb is not None:
+                    for aa, na in positions(ga, ca, wa):
+                        for ab, nbn in positions(gb, cb, wb):
+                            if pk == Poly.sym(na) * nb + Poly.sym(nbn):
+                                m = {g0[0]: g1[0] for g0, g1 in zip(ga, aa[1])}
+                                m.update({g0[0]: g1[0] for g0, g1 in zip(gb, ab[1])})
+                                return subst(o.comp.elt, m)
         # closed-form position of an unfiltered single range
         if len(o.comp.gens) == 1 and not o.comp.conds and o.comp.gens[0][3] == 1:
             v, lo, hi, step = o.comp.gens[0]
@@ -1090,6 +1110,28 @@ class SeqAlg:
                         changed = True
                         break
                 if changed:
+                    break
+                # a range whose size is the product of two registered spaces is their product, in order: v = lo + pos(a) * size(B) + pos(b); of the two
+                # orders the one under which the lookups by position resolve is taken (both are changes of variable, neither can make a wrong form right)
+                pairs_ = [(ka, kb) for ka in range(len(self.registry)) for kb in range(len(self.registry))
+                          if size == Poly.sym(self.sym(("cnt", ka))) * Poly.sym(self.sym(("cnt", kb)))]
+                best = None
+                for ka, kb in pairs_[:4]:
+                    ia = self.instance(Comp(self.registry[ka].gens, self.registry[ka].conds, ("const", None)))
+                    ib = self.instance(Comp(self.registry[kb].gens, self.registry[kb].conds, ("const", None)))
+                    pos = self._noted(self.pc(ia.gens + ib.gens, ia.conds + ib.conds))
+                    m = {v: ("bin", "+", pos, lo)}
+                    gens = c.gens[:i] + ia.gens + ib.gens + c.gens[i + 1:]
+                    conds = ia.conds + ib.conds + tuple(subst(x, m) for x in c.conds)
+                    cand = Comp(tuple((g[0], subst(g[1], m), subst(g[2], m), g[3]) for g in gens), conds, subst(c.elt, m))
+                    left = [st for st in subterms(self.res(cand.elt)) if isinstance(st, tuple) and st and st[0] == "idx" and self.obj(st[1]) is not None]
+                    if best is None or not left:
+                        best = cand
+                    if not left:
+                        break
+                if best is not None:
+                    c = best
+                    changed = True
                     break
             if not changed:
                 break
